@@ -117,6 +117,28 @@ def mk_ite(cond, a, b):
     return Ite(cond, a, b)
 
 
+class _MaskNF(ast.NodeTransformer):
+    """normal form of row masks after substitution: X.notna().all(axis=1) == ~X.isna().any(axis=1) (De Morgan), ~~M == M"""
+
+    def visit_Call(self, n):
+        self.generic_visit(n)
+        if isinstance(n.func, ast.Attribute) and n.func.attr == "all" and isinstance(n.func.value, ast.Call) \
+                and isinstance(n.func.value.func, ast.Attribute) and n.func.value.func.attr in ("notna", "notnull") and not n.func.value.args \
+                and ((len(n.args) == 1 and unparse(n.args[0]) == "1" and not n.keywords)
+                     or (not n.args and [(k.arg, unparse(k.value)) for k in n.keywords] in ([("axis", "1")], [("axis", "'columns'")]))):
+            frame = n.func.value.func.value
+            isna = ast.Call(func=ast.Attribute(value=frame, attr="isna", ctx=ast.Load()), args=[], keywords=[])
+            anyc = ast.Call(func=ast.Attribute(value=isna, attr="any", ctx=ast.Load()), args=[], keywords=[ast.keyword(arg="axis", value=ast.Constant(value=1))])
+            return ast.copy_location(ast.UnaryOp(op=ast.Invert(), operand=anyc), n)
+        return n
+
+    def visit_UnaryOp(self, n):
+        self.generic_visit(n)
+        if isinstance(n.op, ast.Invert) and isinstance(n.operand, ast.UnaryOp) and isinstance(n.operand.op, ast.Invert):
+            return n.operand.operand
+        return n
+
+
 class SymExec:
     """env: name -> value.  effects: list of (kind, payload, path condition tuple)"""
 
@@ -172,7 +194,7 @@ class SymExec:
 
         import copy
 
-        return unparse(T().visit(copy.deepcopy(node)))
+        return unparse(_MaskNF().visit(T().visit(copy.deepcopy(node))))
 
     def val(self, n):
         if isinstance(n, ast.Constant) and isinstance(n.value, int) and not isinstance(n.value, bool):
